@@ -31,5 +31,8 @@ Require Import Cspuz.Puzzle.Rules_sudoku.
 Require Import Cspuz.Puzzle.Rules_view.
 Require Import Cspuz.Puzzle.Rules_yajilin.
 Require Import Cspuz.Puzzle.Rules_yinyang.
+Require Import Cspuz.Puzzle.Norinori.
+Require Import Cspuz.Puzzle.Putteria.
+Require Import Cspuz.Puzzle.StarBattle.
 Require Import Cspuz.Puzzle.Sudoku.
-Extraction "model.ml" Z.add Nat.add pyerr_code empty_state rules_akari answers_akari rules_aquarium answers_aquarium rules_building answers_building rules_castle_wall answers_castle_wall rules_compass answers_compass rules_creek answers_creek rules_doppelblock answers_doppelblock rules_fillomino answers_fillomino rules_fivecells answers_fivecells rules_geradeweg answers_geradeweg rules_gokigen answers_gokigen rules_heyawake answers_heyawake rules_lits answers_lits rules_masyu answers_masyu rules_norinori answers_norinori rules_nurikabe answers_nurikabe rules_nurimisaki answers_nurimisaki rules_putteria answers_putteria rules_shakashaka answers_shakashaka rules_simpleloop answers_simpleloop rules_slitherlink answers_slitherlink rules_star_battle answers_star_battle rules_sudoku answers_sudoku rules_view answers_view rules_yajilin answers_yajilin rules_yinyang answers_yinyang solve_sudoku_model.
+Extraction "model.ml" Z.add Nat.add pyerr_code empty_state rules_akari answers_akari rules_aquarium answers_aquarium rules_building answers_building rules_castle_wall answers_castle_wall rules_compass answers_compass rules_creek answers_creek rules_doppelblock answers_doppelblock rules_fillomino answers_fillomino rules_fivecells answers_fivecells rules_geradeweg answers_geradeweg rules_gokigen answers_gokigen rules_heyawake answers_heyawake rules_lits answers_lits rules_masyu answers_masyu rules_norinori answers_norinori rules_nurikabe answers_nurikabe rules_nurimisaki answers_nurimisaki rules_putteria answers_putteria rules_shakashaka answers_shakashaka rules_simpleloop answers_simpleloop rules_slitherlink answers_slitherlink rules_star_battle answers_star_battle rules_sudoku answers_sudoku rules_view answers_view rules_yajilin answers_yajilin rules_yinyang answers_yinyang solve_norinori_model solve_putteria_model solve_star_battle_model solve_sudoku_model.
